@@ -74,6 +74,24 @@ CHECKS = {
    note="Policies carry by-construction outcomes so expected decisions follow from the model's contents." + TB),
 }
 
+# streams added after the fourth round of seeded changes (DESIGN section 11, last item)
+ROUND4 = {
+ "C02": " Large collections (60-4100 policies, deciders at the start / end / random positions, five iteration paths) and one compiled set against 200 stores in a row follow the same table.",
+ "C03": " Several membership tests with different start entities inside one request (scope and condition, crosswise) on all 3-node digraphs and random graphs.",
+ "C04": " Clause-forms (every relation as the whole body of when / unless with operands equal / below / above at run time) and reparse-after-evaluate (one Policy object across Authorize and a second decode).",
+ "C05": " The request template (parts, variable lists) is fingerprinted before and after the call.",
+ "C07": " Generated reject families: duplicate key / annotation at every pair of positions among up to 20 / 12 entries, unparenthesised if as an operand, relations continued after an else branch.",
+ "C09": " A Policy handed a document that is rejected late stays one policy (its own encodings decoded afresh authorize as it does); two policies from one AST do not share what a later decode writes.",
+ "C13": " Decisions and response structs decoded into receivers that already hold another result (reused struct, one Decoder over a stream, typed decoders, pre-filled slice).",
+ "C14": " Wide-objects: 14 ways of failing on records, entities, tag sets and sets of 6-64 entries.",
+ "C15": " Near-miss stream: by-construction data made non-conforming in exactly one place (10 kinds, top level / nested / context): a violation iff the validator's own Entity / Entities / Request call it conforming and an accepted policy then fails on it with a forbidden class.",
+ "C17": " Lifecycle: one Schema value rendered and resolved repeatedly in random order, returned bytes kept, then given a second schema.",
+ "C19": " The shared batch template carries a single-valued variable inside the context.",
+ "C20": " Churn: one PolicySet through 150-900 adds / removes over 40-120 ids in waves, verified after every step.",
+}
+for _k, _v in ROUND4.items():
+    CHECKS[_k]["text"] += _v
+
 NOT_YET = "monitor not built yet in this revision of /verif (work in progress); intended to be decided by the runtime monitor described in DESIGN.md section 5"
 ALL = ["C%02d" % i for i in range(1, 21)]
 
